@@ -2,13 +2,21 @@ import IrVerif.Drive.Util
 import IrVerif.Model.WriterN
 import IrVerif.Model.WriterNC
 import IrVerif.Model.WriterPlan
+import IrVerif.Model.WriterFlatN
+import IrVerif.Drive.Writer
 import Std.Data.HashSet
 /-! Protocol handler for the general (nested) writer transition system (C09).
 `writern.run {cfg, sched}` / `writern.cover {cfg, maxStates}`: as `writer.run` / `writer.cover`;
 labels are `[0,q,c]` owner of pool q, `[1,q,0]` take, `[2,q,0]` exit, `[3,i,0]` task i.
 With `"nc": true` both use the transition system of the writer without a callback (`stepNC`).
 `writern.plan {ts, maxShard, al, athr, workers, capacity}`: the configuration `planCfg` builds from the
-arguments of the save (offsets, shards, pool tree, start images), or null. -/
+arguments of the save (offsets, shards, pool tree, start images), or null; when the tensor entries carry
+`external` instead of `size` (and the request a `chunk`), the reservations are computed by `reservationBytes`
+(`planArgs`).
+`writern.copyreads {chunk, len, external}`: buffer sizes of the copy loop of `ExternalTensor.tofile`, `peakBytes`
+and `reservationBytes`.
+`writern.flat {cfg (flat), sched (flat labels)}`: the one-pool configuration `toN cfg` and whether the flat run,
+translated state by state (`absState`), is the general model's run on it (`C09_flat_is_general`). -/
 open Lean IrVerif.Drive
 namespace IrVerif.Drive.WriterN
 open IrVerif.WriterN
@@ -44,6 +52,27 @@ def getCfg (j : Json) : Except String Cfg := do
 def getTSpec (j : Json) : Except String TSpec := do
   return { obj := ← getNat j "obj", size := ← getNat j "size", fails := ← getBool j "fails",
            cbFails := ← getBool j "cbFails", data := ← getNats j "data" }
+
+def getTArg (j : Json) : Except String TArg := do
+  return { obj := ← getNat j "obj", external := ← getBool j "external", fails := ← getBool j "fails",
+           cbFails := ← getBool j "cbFails", data := ← getNats j "data" }
+
+/-- a tensor entry of `writern.plan`: with `size` a `TSpec` as it is, with `external` a `TArg` whose reservation
+    `reservationBytes chunk` computes -/
+def getPlanT (chunk : Nat) (j : Json) : Except String TSpec :=
+  match j.getObjVal? "size" with
+  | .ok _ => getTSpec j
+  | .error _ => do return (← getTArg j).spec chunk
+
+/-- the flat run translated state by state is the general model's run on `toN cfg` -/
+def flatAgree (cfg : IrVerif.Writer.Cfg) : IrVerif.Writer.State → State → List IrVerif.Writer.Label → Bool
+  | s, t, [] => decide (IrVerif.Writer.absState s = t)
+  | s, t, l :: ls =>
+    decide (IrVerif.Writer.absState s = t) &&
+      match IrVerif.Writer.step cfg s l, step (IrVerif.Writer.toN cfg) t (IrVerif.Writer.absLabel l) with
+      | some s', some t' => flatAgree cfg s' t' ls
+      | none, none => true
+      | _, _ => false
 
 def optNatJ : Option Nat → Json
   | none => Json.null
@@ -190,7 +219,8 @@ def handle : Handler := fun m j =>
                   ("deadlocks", toJson c.deadlocks), ("truncated", toJson c.truncated),
                   ("wf", toJson (wfb cfg && layoutb cfg && preallocb cfg && (!nc || ncb cfg)))]
   | "writern.plan" => some do
-      let ts ← (← getArr j "ts").mapM getTSpec
+      let chunk := match getNat j "chunk" with | .ok c => c | .error _ => copyChunkSize
+      let ts ← (← getArr j "ts").mapM (getPlanT chunk)
       let maxShard ← getOptNat j "maxShard"
       let al ← getOptNat j "al"
       match planCfg ts maxShard al (← getNat j "athr") (← getNat j "workers") (← getNat j "capacity") with
@@ -199,6 +229,19 @@ def handle : Handler := fun m j =>
           return obj [("cfg", cfgJ cfg), ("wf", toJson (wfb cfg)), ("layout", toJson (layoutb cfg)),
                       ("prealloc", toJson (preallocb cfg)),
                       ("shards", toJson (shardsOf ts maxShard al (← getNat j "athr")).length)]
+  | "writern.copyreads" => some do
+      let chunk := match getNat j "chunk" with | .ok c => c | .error _ => copyChunkSize
+      let len ← getNat j "len"
+      let ext ← getBool j "external"
+      let a : TArg := { obj := 0, external := ext, fails := false, cbFails := false, data := List.replicate len 0 }
+      return obj [("reads", natsJ (copyReads chunk len len)), ("peak", toJson (peakBytes chunk a)),
+                  ("reservation", toJson (reservationBytes chunk ext len))]
+  | "writern.flat" => some do
+      let fcfg ← IrVerif.Drive.Writer.getCfg j
+      let sched ← (← getArr j "sched").mapM IrVerif.Drive.Writer.getLabel
+      let g := IrVerif.Writer.toN fcfg
+      return obj [("cfg", cfgJ g), ("wf", toJson (wfb g)),
+                  ("agree", toJson (flatAgree fcfg (IrVerif.Writer.init fcfg) (init g) sched))]
   | _ => none
 
 end IrVerif.Drive.WriterN
